@@ -624,6 +624,8 @@ func TestStateReplay(t *testing.T) {
 	}
 	defer restore()
 	counts := map[string]int{}
+	stateObservations = nil
+	defer func() { out.Stats["observations"] = stateObservations }()
 	splits := []string{"model", "single", "merged"}
 	versions := []string{"pre", "post", "upgrade"}
 	for bi, beh := range in.Behaviours {
